@@ -174,6 +174,19 @@ func TestVerifC18Updates(t *testing.T) {
 		}
 		var stop atomic.Bool
 		var inFlight, workerChecks atomic.Int64
+		// epoch = 2*i while configuration i is in force, 2*i+1 while update
+		// i+1 is in the handler; expBlocked[i] = 1 (blocked) / 2 (not) for
+		// configuration i.  A request that overlapped updates must be decided
+		// as one of the configurations in force during it decides - as a whole.
+		var epoch atomic.Int64
+		var expBlocked [1024]atomic.Int32
+		startBlocked := int32(1)
+		if startBS.Schedule.Contains(time.Now()) {
+			startBlocked = 2
+		}
+		expBlocked[0].Store(startBlocked)
+		var tornMu sync.Mutex
+		var torn map[string]any
 		var wg sync.WaitGroup
 		for w := 0; w < 8; w++ {
 			wg.Add(1)
@@ -181,13 +194,40 @@ func TestVerifC18Updates(t *testing.T) {
 				defer wg.Done()
 				for !stop.Load() {
 					inFlight.Add(1)
-					_, _ = check()
+					e1 := epoch.Load()
+					got, cerr := check()
+					e2 := epoch.Load()
 					inFlight.Add(-1)
 					workerChecks.Add(1)
+					if cerr != nil {
+						continue
+					}
+					okAny, known := false, true
+					for c := e1 / 2; c <= (e2+1)/2 && c < int64(len(expBlocked)); c++ {
+						switch expBlocked[c].Load() {
+						case 0:
+							known = false
+						case 1:
+							okAny = okAny || got
+						case 2:
+							okAny = okAny || !got
+						}
+					}
+					if e2 > e1 || e1%2 == 1 {
+						rep.Event("worker-requests-that-overlapped-an-update")
+					}
+					if known && !okAny {
+						tornMu.Lock()
+						if torn == nil {
+							torn = map[string]any{"blocked": got, "first_configuration_in_force": e1 / 2, "last_configuration_in_force": (e2 + 1) / 2}
+						}
+						tornMu.Unlock()
+					}
 				}
 			}()
 		}
-		prevPaused := false
+		prevPaused := startBlocked == 2
+		accepted := 0
 		lastKind := -1
 		for u := 0; u < updatesPerRound; u++ {
 			kind := rng.Intn(8)
@@ -201,7 +241,12 @@ func TestVerifC18Updates(t *testing.T) {
 			} else if lastKind == 6 && rng.Intn(2) == 0 {
 				kind = 3
 			}
-			s, ok := c18UMake(kind, time.Now(), []string{"youtube"})
+			ids := []string{"youtube"}
+			if rng.Intn(3) == 0 {
+				// The list of services changes together with the schedule.
+				ids = []string{}
+			}
+			s, ok := c18UMake(kind, time.Now(), ids)
 			if ok {
 				lastKind = kind
 			}
@@ -213,14 +258,23 @@ func TestVerifC18Updates(t *testing.T) {
 			w := httptest.NewRecorder()
 			r := httptest.NewRequest(http.MethodPut, "/control/blocked_services/update", bytes.NewReader(b))
 			r.Header.Set("Content-Type", "application/json")
+			wantBlocked := len(ids) > 0 && !s.Paused
+			if accepted+1 < len(expBlocked) {
+				expBlocked[accepted+1].Store(map[bool]int32{true: 1, false: 2}[wantBlocked])
+			}
+			epoch.Store(int64(2*accepted + 1))
 			d.handleBlockedServicesUpdate(w, r)
+			if w.Code == http.StatusOK {
+				accepted++
+			}
+			epoch.Store(int64(2 * accepted))
 			overlapped := workerChecks.Load() != before || inFlight.Load() > 0
 			if w.Code != http.StatusOK {
 				rep.Violate("updates:valid-schedule-rejected:"+s.Kind, fmt.Sprintf("status %d: %s", w.Code, w.Body.String()), map[string]any{"update": s})
 
 				continue
 			}
-			flips := s.Paused != prevPaused
+			flips := !wantBlocked != prevPaused
 			rep.Eval(flips && overlapped, fmt.Sprintf("%d|%d", round, u))
 			rep.Class("update:" + s.Kind)
 			if flips {
@@ -229,7 +283,7 @@ func TestVerifC18Updates(t *testing.T) {
 			if overlapped {
 				rep.Class("update-overlapped-by-requests")
 			}
-			want := !s.Paused
+			want := wantBlocked
 			for i := 0; i < 40; i++ {
 				got, cerr := check()
 				rep.Event("post-update-check")
@@ -241,7 +295,16 @@ func TestVerifC18Updates(t *testing.T) {
 					break
 				}
 			}
-			prevPaused = s.Paused
+			prevPaused = !wantBlocked
+			tornMu.Lock()
+			tw := torn
+			tornMu.Unlock()
+			if tw != nil {
+				tw["round"], tw["update"] = round, s
+				rep.Violate("updates:request-during-update-follows-neither-the-old-nor-the-new-configuration", "a request that overlapped an update of the blocked services (list and schedule changed together) was decided as none of the configurations in force during it decides", tw)
+
+				break
+			}
 			if round == 0 && u < 3 {
 				rep.Sample(map[string]any{"update": s, "worker_requests_so_far": workerChecks.Load()})
 			}
